@@ -293,8 +293,21 @@ def process_fn(src, unit, key, spec, s, hp, ob, cb, add_edit, canary, disabled_r
         if spec.get('loop_count') is not None and spec['loop_count'] != len(found):
             raise AnchorLost('%s: expected %d loops, found %d' % (key, spec['loop_count'], len(found)))
 
-    # ghost inserts at textual anchors
-    for ins in spec.get('inserts', []):
+    # ghost inserts at textual anchors.  If any anchor of the function is lost, none of its hint inserts is applied
+    # (a hint placed next to changed code may not even compile); the function is then verified without hints.
+    def anchor_lost(ins):
+        if 'loop_end' in ins or 'loop_start' in ins:
+            return None
+        occ = [m.start() for m in re.finditer(re.escape(ins['anchor']), text[ob:cb + 1])]
+        occ = [o for o in occ if src.mask[ob + o]]
+        if ins.get('unique', True) and 'nth' not in ins and len(occ) != 1:
+            return '%s: anchor `%s` found %d times' % (key, ins['anchor'], len(occ))
+        if ins.get('nth', 0) >= len(occ):
+            return '%s: anchor `%s` #%d not found' % (key, ins['anchor'], ins.get('nth', 0))
+        return None
+    losses = [l for l in (anchor_lost(i) for i in spec.get('inserts', [])) if l]
+    info.degraded.extend(losses)
+    for ins in ([] if losses else spec.get('inserts', [])):
         if 'loop_end' in ins or 'loop_start' in ins:
             found = find_loops(src, ob, cb)
             n = ins.get('loop_end', ins.get('loop_start'))
